@@ -13,6 +13,30 @@ var bigOne = big.NewInt(1)
 var conversionNames = []string{"FloatAsFloat", "FloatAsSigned", "FloatAsUnsigned", "SignedAsFloat", "SignedAsSigned", "SignedAsUnsigned",
 	"UnsignedAsFloat", "UnsignedAsSigned", "UnsignedAsUnsigned"}
 
+// discoverConversions returns the nine known conversions plus every other exported package-level function with the
+// same signature shape (src, dst *Buffer) int: a sibling added later must satisfy the same rules.
+func (c *Checker) discoverConversions() []string {
+	names := append([]string{}, conversionNames...)
+	have := map[string]bool{}
+	for _, n := range names {
+		have[n] = true
+	}
+	for _, fn := range c.entryFunctions() {
+		if fn.Signature.Recv() != nil || !fnExported(fn) || have[fn.Name()] || len(fn.Params) != 2 {
+			continue
+		}
+		if !isBufferPtr(fn.Params[0].Type()) || !isBufferPtr(fn.Params[1].Type()) {
+			continue
+		}
+		res := fn.Signature.Results()
+		if res.Len() == 1 && isIntLike(res.At(0).Type()) {
+			names = append(names, fn.Name())
+			have[fn.Name()] = true
+		}
+	}
+	return names
+}
+
 func checkC05(c *Checker) {
 	c.rule("C05-R1", "every loop is a counting loop over i < N = min(len(src.data), len(dst.data)), N computed before any store", 9)
 	c.rule("C05-R2", "the only store of an iteration is dst.data[i] <- g(src.data[i]); every other operand of g derives from the two bit depths only", 9)
@@ -21,7 +45,7 @@ func checkC05(c *Checker) {
 	c.rule("C05-R5", "FloatAsFloat: g is a pure floating conversion (no comparison, no arithmetic): exact or nearest, never clipping", 1)
 	c.Assumptions = append(c.Assumptions, "channels >= 1", "when source and destination are the same buffer the iteration still reads position i before writing it (position-wise form)")
 	nLoops := 0
-	for _, name := range conversionNames {
+	for _, name := range c.discoverConversions() {
 		fn := c.anchor("C05-R1", name)
 		if fn == nil {
 			continue
@@ -177,7 +201,7 @@ type guardSpec struct {
 	ops  func(fn *ssa.Function) (*Term, *Term, bool)
 }
 
-func guardTable() []guardSpec {
+func guardTable(c *Checker) []guardSpec {
 	var t []guardSpec
 	twoBufs := func(fn *ssa.Function) (*Term, *Term, bool) {
 		if len(fn.Params) != 2 || !isBufferPtr(fn.Params[0].Type()) || !isBufferPtr(fn.Params[1].Type()) {
@@ -185,7 +209,7 @@ func guardTable() []guardSpec {
 		}
 		return buf{paramName(fn, 0)}.ch(), buf{paramName(fn, 1)}.ch(), true
 	}
-	for _, n := range conversionNames {
+	for _, n := range c.discoverConversions() {
 		t = append(t, guardSpec{n, n, twoBufs})
 	}
 	t = append(t, guardSpec{"(*Buffer[D]).Append", "Buffer.Append", twoBufs})
@@ -212,7 +236,7 @@ func checkC15(c *Checker) {
 	c.rule("C15-G2", "every effect on existing memory (element store, header store, pool call, SetCap) is preceded by the equality of the two shape operands on its path", 13)
 	c.Assumptions = append(c.Assumptions, "panic(...) unwinds without further effects (the package has no defer/recover)")
 	nEff := 0
-	for _, g := range guardTable() {
+	for _, g := range guardTable(c) {
 		fn := c.anchor("C15-G1", g.fn)
 		if fn == nil {
 			continue
